@@ -295,10 +295,13 @@ def install_locks():
     (`RLock`, `Lock`) imported into runner_local / storage_base and every module-level lock object.
     The per-invocation lock table itself is left as the code defines it (a dictionary, a cached
     function, ...): it creates its locks through the re-bound factory."""
-    from twosigma.memento import runner_local, storage_base
+    import sys
+
+    from twosigma.memento import runner_local, storage_base  # noqa: F401
 
     rebound = []
-    for mod in (runner_local, storage_base):
+    # (every module of the package: a lock added anywhere by a repair is picked up)
+    for mod in [m_ for n_, m_ in sorted(sys.modules.items()) if n_.startswith("twosigma.memento.") and m_ is not None]:
         short = mod.__name__.rsplit(".", 1)[-1]
         for name, val in list(vars(mod).items()):
             if name in ("RLock", "Lock") and val is not SchedRLock:
